@@ -89,3 +89,39 @@ package memdb
 //@ func (*DB).NewIterator
 //@   props C02 C11
 //@   trusted
+
+// C14 (iterator): every move leaves the iterator facing the way it moved - forward after First / Seek / Next,
+// backward after Last / Prev - so that stepping off one end and calling the opposite move re-enters from that end
+// and calling the same move again stays off the end. Seek lands on a key not smaller than its target.
+//@ func (*dbIter).Seek
+//@   props C14 C02
+//@   safety off
+//@   requires !sameblock(i.p.nodeData, i.p.prevNode[:])
+//@   ensures [C02,C14:facing-forward-after-a-forward-move] (old(i.err) == nil && i.err == nil) ==> i.forward
+//@   guarantees [C14:seek-lands-on-a-key-not-smaller-than-the-target] result ==> mcmp(bytes(i.key), bytes(key)) >= 0
+//@ func (*dbIter).First
+//@   props C14 C02
+//@   safety off
+//@   requires !sameblock(i.p.nodeData, i.p.prevNode[:])
+//@   ensures [C02,C14:facing-forward-after-a-forward-move] (old(i.err) == nil && i.err == nil) ==> i.forward
+//@ func (*dbIter).Next
+//@   props C14 C02
+//@   safety off
+//@   requires !sameblock(i.p.nodeData, i.p.prevNode[:])
+//@   ensures [C02,C14:facing-forward-after-a-forward-move] (old(i.err) == nil && i.err == nil) ==> i.forward
+//@   ensures [C02,C14:next-stays-off-the-forward-end] (old(i.err) == nil && i.err == nil && old(i.node) == 0 && old(i.forward)) ==> (!result && i.node == 0)
+//@ func (*dbIter).Last
+//@   props C14 C02
+//@   safety off
+//@   ensures [C02,C14:facing-backward-after-a-backward-move] (old(i.err) == nil && i.err == nil) ==> !i.forward
+//@ func (*dbIter).Prev
+//@   props C14 C02
+//@   safety off
+//@   ensures [C02,C14:facing-backward-after-a-backward-move] (old(i.err) == nil && i.err == nil) ==> !i.forward
+//@   ensures [C02,C14:prev-stays-off-the-backward-end] (old(i.err) == nil && i.err == nil && old(i.node) == 0 && !old(i.forward)) ==> (!result && i.node == 0)
+//@ func (*dbIter).fill
+//@   props C14 C02
+//@   safety off
+//@   ensures [C02,C14:positioned-means-the-nodes-own-key] result ==> (i.node == old(i.node) && i.node != 0 && sameslice(i.key, i.p.kvData[i.p.nodeData[i.node] : i.p.nodeData[i.node] + i.p.nodeData[i.node+1]]))
+//@   ensures [C02,C14:off-the-end-means-no-key] !result ==> (i.node == 0 && isnil(i.key) && isnil(i.value))
+//@   modifies i.node, i.key, i.value
